@@ -9,6 +9,7 @@
  *   bits <file|mem> <first> <last>  > bits <status> <hex>
  *   fset|fclr <file|mem> <idx>    > fset|fclr <status> <idx>
  *   close
+ *   tree                          > tree key=value|key=value|...   (whole attribute tree)
  * Every line also carries the C16 monitor verdict (status documented, message
  * present iff failure).  Buffers are allocated at their exact size so that
  * ASan reports any write outside them.
@@ -46,6 +47,50 @@ static void show_attr(kdump_ctx_t *ctx, const char *key)
 	}
 	else printf("-");
 	printf("%s\n", c16_monitor(ctx, st));
+}
+
+/* `tree`: the whole attribute tree on one line, `key=value` separated by `|`
+ * (C11: compared between a plain dump and its flattened / split variants). */
+static void dump_tree(kdump_ctx_t *ctx, const kdump_attr_ref_t *dir, const char *prefix)
+{
+	kdump_attr_iter_t it;
+	if (kdump_attr_ref_iter_start(ctx, dir, &it) != KDUMP_OK) { printf("%s=ITER-FAILED|", prefix); return; }
+	while (it.key) {
+		char path[512]; kdump_attr_t a; kdump_status st;
+		snprintf(path, sizeof path, "%s%s%s", prefix, *prefix ? "." : "", it.key);
+		if (kdump_attr_ref_type(&it.pos) == KDUMP_DIRECTORY)
+			dump_tree(ctx, &it.pos, path);
+		else if (!kdump_attr_ref_isset(&it.pos))
+			printf("%s=unset|", path);
+		else if ((st = kdump_attr_ref_get(ctx, &it.pos, &a)) != KDUMP_OK)
+			printf("%s=ERR:%s|", path, kstatus_name(st));
+		else {
+			printf("%s=", path);
+			switch (a.type) {
+			case KDUMP_NUMBER: printf("num:%" PRIu64, (uint64_t)a.val.number); break;
+			case KDUMP_ADDRESS: printf("addr:%" PRIu64, (uint64_t)a.val.address); break;
+			case KDUMP_STRING: {
+				const char *c;
+				printf("str:");
+				for (c = a.val.string; *c; ++c)
+					if (*c < 0x20 || *c == '|' || *c == 0x7f) printf("\\x%02x", (unsigned char)*c); else putchar(*c);
+				break;
+			}
+			case KDUMP_BITMAP: printf("bitmap"); break;
+			case KDUMP_BLOB: {
+				size_t n = kdump_blob_size(a.val.blob);
+				void *d = kdump_blob_pin(a.val.blob);
+				printf("blob:%zu:%" PRIu64, n, d ? fnv(d, n) : 0);
+				kdump_blob_unpin(a.val.blob);
+				break;
+			}
+			default: printf("type:%d", (int)a.type);
+			}
+			putchar('|');
+		}
+		if (kdump_attr_iter_next(ctx, &it) != KDUMP_OK) break;
+	}
+	kdump_attr_iter_end(ctx, &it);
 }
 
 static void run_cmd(kdump_ctx_t *ctx, char *line)
@@ -93,6 +138,14 @@ static void run_cmd(kdump_ctx_t *ctx, char *line)
 		}
 	} else if (!strncmp(line, "dd", 2) || !strncmp(line, "msb0", 4) || !strncmp(line, "elf ", 4) || !strncmp(line, "seg ", 4)) {
 		;       /* layout description for the model */
+	} else if (!strcmp(line, "tree")) {
+		kdump_attr_ref_t root;
+		kdump_status st = kdump_attr_ref(ctx, NULL, &root);
+		if (st != KDUMP_OK) { printf("> tree %s\n", kstatus_name(st)); return; }
+		printf("> tree ");
+		dump_tree(ctx, &root, "");
+		putchar('\n');
+		kdump_attr_unref(ctx, &root);
 	} else
 		puts("> bad-op");
 }
